@@ -138,7 +138,7 @@ def spec_insert_synsets(synsets, lexid, cur, progress):
         ('insert', 'synsets', None,
          [row(id=ss['id'], lexicon_rowid=lexid,
               ili_rowid=ROWID('ilis', id=ss['ili'] if has_ili(ss) else None),
-              pos=ss['partOfSpeech'], lexicalized=ss.get('lexicalized', True),
+              pos=ss.get('partOfSpeech'), lexicalized=ss.get('lexicalized', True),
               lexfile_rowid=ROWID('lexfiles', name=ss.get('lexfile')), metadata=ss['meta']) for ss in mine]),
         ('insert', 'proposed_ilis', None,
          [row(synset_rowid=ROWID('synsets', id=ss['id'], lexicon_rowid=lexid),
